@@ -39,6 +39,9 @@ CLAIMED = {
  "C16": ("proptest: generated file sets (multi-byte, CRLF, long lines, EOF/BOF matches) x query x context x JSON style through the real CLI; oracle = recomputation of every printed field from the file bytes (O-pos, whole-line slicing)",
          "Randomised exploration through the real binary: 1.5x10^3 (quick) to 3x10^4 (thorough) invocations producing 10^4-10^6 JSON records and plain-report lines, each recomputed from the bytes on disk; JSON must parse as one array / one object per line for 1-29 files.",
          "Trusted: serde_json as JSON parser; the files written by the harness; JavaScript sources only (the printers are language independent).", "DESIGN.md §5 C16"),
+ "C18": ("proptest: generated projects (overlapping fixable rules, html hosts, repeated invocations) through the real CLI; oracle O-update = the edits announced by the same command under --json ordered as visited, overlaps dropped, spliced with O-splice (model-based differential)",
+         "Randomised exploration through the real binary: hundreds (quick) to thousands (thorough) of `-U` invocations (run and scan, 1-3 repetitions each); every file must equal the spliced model byte for byte, untouched files must be unchanged and `Applied N changes` must equal the number of accepted edits.",
+         "Trusted: the JSON output as the announcement (C16 checks it against the bytes); the visiting order model (node start, outer first, rule id).", "DESIGN.md §5 C18"),
  "C19": ("proptest: generated sources (all languages, syntax errors, multi-byte) x start nodes; navigation API vs. plain recursion over raw tree-sitter child(i) (reference model)",
          "Randomised exploration of navigation invariants on every node of generated trees; traversals from generated start nodes against recursive reference orders; positions against O-pos recomputation.",
          "Trusted: tree-sitter child(i)/parent as ground truth; node identity = (id, byte range); zero-width parents excluded from the sibling clause as the property states.", "DESIGN.md §5 C19"),
